@@ -530,7 +530,7 @@ fn lines5(max_entries: usize) -> Vec<String> {
 
 fn preamble_check(rep: &mut Report, thorough: bool) {
     use anytls_rs::util::auth::send_authentication;
-    let rt = tokio::runtime::Builder::new_current_thread().build().unwrap();
+    let rt = tokio::runtime::Builder::new_current_thread().enable_time().start_paused(true).build().unwrap();
     let mut ls = lines5(if thorough { 3 } else { 2 });
     ls.push(String::new());
     for line in ls {
